@@ -4,6 +4,6 @@ import "verif/harness/props/c10"
 
 func init() {
 	registry["C10"] = entry{run: c10.Run, level: "exploration",
-		rule: "cases = seeded operation histories on queue.Store (Add/Read/ReadInflight/Remove/Replace/Init/Close; capacities 1-6; QoS mix; message expiry past/future/none; InflightExpiry -1h/0/+1h; sizes around ReadBytesLimit) validated step by step by a model that accepts every outcome the statement allows, with a per-message conservation ledger and a final drain; non-trivial = the queue became full or a message was dropped; distinct by operation sequence. Plus: reopen (a new store object over the list the back end holds, Adds before Init), timed in-flight cases, and a refused LRANGE on a full queue (durable back end).",
+		rule: "cases = seeded operation histories on queue.Store (Add/Read/ReadInflight/Remove/Replace/Init/Close; capacities 1-6; QoS mix; message expiry past/future/none; InflightExpiry -1h/0/+1h; sizes around ReadBytesLimit) validated step by step by a model that accepts every outcome the statement allows, with a per-message conservation ledger and a final drain; non-trivial = the queue became full or a message was dropped; distinct by operation sequence. Plus: reopen (a new store object over the list the back end holds, Adds before Init), timed in-flight cases, and a refused LRANGE on a full queue (durable back end). Read limits include 129/130/131 and 16387/16388 (the packet sizes on both sides of the remaining lengths 128 and 16384).",
 		assumptions: []string{"expiry decided with +-1 hour offsets, never by wall-clock races", "interface contract respected: ReadInflight drained before Read, Remove/Replace only for ids handed out in this epoch"}}
 }
